@@ -477,7 +477,7 @@ impl Check {
         self.sections.push(st);
         self.inconclusive.extend(sh.inconclusive);
         if let Some((case, reason)) = sh.failure {
-            let dir = format!("{}/evidence/replays", VERIF_DIR);
+            let dir = std::env::var("VERIF_REPLAY_DIR").unwrap_or(format!("{}/evidence/replays", VERIF_DIR));
             let _ = std::fs::create_dir_all(&dir);
             let body = json!({ "property": self.id, "section": name, "reason": reason, "case": case });
             let h = hash_value(&body);
@@ -585,7 +585,7 @@ impl Check {
         }
         self.sections.push(st);
         if let Some((case, reason)) = failure {
-            let dir = format!("{}/evidence/replays", VERIF_DIR);
+            let dir = std::env::var("VERIF_REPLAY_DIR").unwrap_or(format!("{}/evidence/replays", VERIF_DIR));
             let _ = std::fs::create_dir_all(&dir);
             let body = json!({ "property": self.id, "section": name, "reason": reason, "case": case });
             let h = hash_value(&body);
@@ -655,7 +655,7 @@ impl Check {
         }
         self.sections.push(st);
         if let Some((case, reason)) = first_failure {
-            let dir = format!("{}/evidence/replays", VERIF_DIR);
+            let dir = std::env::var("VERIF_REPLAY_DIR").unwrap_or(format!("{}/evidence/replays", VERIF_DIR));
             let _ = std::fs::create_dir_all(&dir);
             let body = json!({ "property": self.id, "section": name, "reason": reason, "case": case });
             let h = hash_value(&body);
@@ -737,7 +737,8 @@ impl Check {
             "wall_s": wall,
             "violations": self.violations.len() + unknown_known.len(),
         });
-        if !replaying {
+        // VERIF_NO_EVIDENCE: runs against deliberately broken trees (seeded changes) must not overwrite evidence
+        if !replaying && std::env::var("VERIF_NO_EVIDENCE").is_err() {
             let dir = format!("{}/evidence", VERIF_DIR);
             let _ = std::fs::create_dir_all(&dir);
             let path = format!("{}/{}.json", dir, self.id);
